@@ -304,6 +304,21 @@ Theorem c17_answer_to_any_send_accepted q qid n d r ds :
 Proof. exact (answer_to_any_send_accepted q qid n d r ds). Qed.
 Print Assumptions c17_answer_to_any_send_accepted.
 
+(** ** Idle connections the server closed while idle
+
+    Once the client has seen them die they are in no pool any more: for ANY
+    number [k] of them the retry is answered from one fresh connection. *)
+Theorem c17_dead_idle_conns_are_harmless k f q :
+  reuse_dead_idle k f q = (Reply (f q), mkEff true 1 [q]).
+Proof. exact (reuse_dead_idle_answered k f q). Qed.
+Print Assumptions c17_dead_idle_conns_are_harmless.
+
+Theorem c17_fallback_over_dead_idle_conns q r k f :
+  msg_truncated r = Some true ->
+  udp_with_fallback q (Reply r) (fun q' => fst (reuse_dead_idle k f q')) = (RReply (f q), [q]).
+Proof. exact (fallback_over_dead_idle_conns q r k f). Qed.
+Print Assumptions c17_fallback_over_dead_idle_conns.
+
 (** Non-vacuity of the above: url host 127.0.0.2 (no port), DialAddr 127.0.0.1:5353. *)
 Example c17_dials_nonvacuous :
   udp_upstream_dials (Addr.lit "udp://127.0.0.2"%string) (Addr.lit "127.0.0.1:5353"%string)
